@@ -72,7 +72,7 @@ func runWorker(prop Property, tier string, base uint64, from, to int, only map[i
 		} else {
 			c = prop.Gen(seed, tier)
 		}
-		v, ri := prop.Check(c)
+		v, ri := runCheck(prop, c)
 		ws.Evaluations++
 		ws.Steps += ri.Steps
 		if ri.Vacuous {
@@ -188,7 +188,7 @@ func classify(prop Property, c *Case, findings []knownFinding) []*knownFinding {
 			continue
 		}
 		applicable = append(applicable, f)
-		if v, _ := prop.Check(nc); v == nil {
+		if v, _ := runCheck(prop, nc); v == nil {
 			return []*knownFinding{f}
 		}
 	}
@@ -198,7 +198,7 @@ func classify(prop Property, c *Case, findings []knownFinding) []*knownFinding {
 		for _, f := range applicable {
 			nc, _ = neutralisers[f.Neutraliser](nc)
 		}
-		if v, _ := prop.Check(nc); v == nil {
+		if v, _ := runCheck(prop, nc); v == nil {
 			return applicable
 		}
 	}
@@ -375,6 +375,16 @@ func driver(propID, tier string) int {
 	if agg.Uncontrolled > 0 {
 		fmt.Fprintf(os.Stderr, "simcheck: %d map ranges ran in an order the simulator did not control (keys of a type it cannot canonicalise); runs are not replayable\n", agg.Uncontrolled)
 		return 2
+	}
+
+	// auxiliary legs a property runs after the sweep (C09: real goroutines under the race detector)
+	if pc, ok := prop.(PostChecker); ok {
+		pv, pcnt := pc.Post(tier, base)
+		agg.Violations = append(agg.Violations, pv...)
+		agg.NViol += len(pv)
+		for k, n := range pcnt {
+			agg.Counters[k] += n
+		}
 	}
 
 	// violations: attribute to known findings, else minimise and report
@@ -554,6 +564,7 @@ func writeEvidence(root string, prop Property, tier string, base uint64, agg *wo
 }
 
 func main() {
+	snapshotGlobals()
 	if len(os.Args) < 2 {
 		fatal2("usage: simrun check|worker|replay|selftest ...")
 	}
@@ -585,6 +596,16 @@ func main() {
 		w.Flush()
 	case "replay":
 		os.Exit(replayCmd(os.Args[2]))
+	case "selftest":
+		os.Exit(selftest())
+	case "identitydigests":
+		identityDigestsCmd(os.Args[2:])
+	case "racesweep":
+		base, _ := strconv.ParseUint(os.Args[2], 10, 64)
+		rounds, _ := strconv.Atoi(os.Args[3])
+		os.Exit(raceSweep(base, rounds))
+	case "raceexec":
+		os.Exit(raceExecFile(os.Args[2]))
 	case "one":
 		// simrun one <property> <tier> <index>: run one index verbosely (debugging aid)
 		prop := properties[os.Args[2]]
@@ -594,7 +615,7 @@ func main() {
 		if ix, ok := prop.(Indexed); ok {
 			c = ix.GenAt(idx, seed, os.Args[3])
 		}
-		v, ri := prop.Check(c)
+		v, ri := runCheck(prop, c)
 		b, _ := json.Marshal(freeze(c, ri))
 		fmt.Println(string(b))
 		if v != nil {
